@@ -104,6 +104,10 @@ def cases(block):
         for pre in PRELUDES + list(REQUEST_PRELUDES):
             for w in ((None, 1.3) if pre in PRELUDES else (None,)):
                 yield {"grid": block["grid"], "modes": block["modes"], "refine": False, "width": w, "rule": 0.5, "image": "two", "prelude": pre}
+    # other numeric forms of the image data (the request, not the storage type of the image, determines class and layout)
+    for form in ("float32", "bool", "uint8", "int64", "fortran", "readonly"):
+        for w in (None, 1.3):
+            yield {"grid": block["grid"], "modes": block["modes"], "refine": block["refine"], "width": w, "rule": 0.5, "image": "two", "form": form}
     for w in (WIDTHS + [0.4] if thorough else WIDTHS):
         for rule in (RULES + ["extrema", 0.3] if thorough else RULES):
             for img in IMAGES:
@@ -185,6 +189,21 @@ def run_case(case, ctx):
         return core.run_sequence_in_fork(seq, [case], ctx, tag={"history": case["prelude"]})
     g, modes, refine, w, rule, img = case["grid"], case["modes"], case["refine"], case["width"], case["rule"], case["image"]
     grid, field, nexp = field_for(g, img)
+    form = case.get("form")
+    if form:
+        from pde import ScalarField
+
+        ctx.count("images-in-other-data-forms")
+        if form in ("float32",):
+            field = ScalarField(grid, field.data.astype(np.float32), dtype=np.float32)
+        elif form in ("bool", "uint8", "int64"):
+            field = ScalarField(grid, (field.data > 0.5).astype(form), dtype=form)
+        elif form == "fortran":
+            field = ScalarField(grid, field.data)
+            field.data = np.asfortranarray(field.data)
+        else:
+            field = ScalarField(grid, field.data)
+            field.data.flags.writeable = False
     dim = grid.dim
     tags = {"grid": g["kind"], "dim": dim, "modes": modes, "refine": refine, "width": "none" if w is None else ("zero" if w == 0 else "value")}
     if modes > 0 and dim == 1:
@@ -238,4 +257,4 @@ def run_case(case, ctx):
 
 
 def expected_positive(tier):
-    return ["C19.class", "C19.dim", "C19.modes", "C19.width-carried", "C19.layout", "C19.dim1-modes-raise", "results-with-droplets", "results-with->=2-droplets", "requests-after-a-prelude"]
+    return ["C19.class", "C19.dim", "C19.modes", "C19.width-carried", "C19.layout", "C19.dim1-modes-raise", "results-with-droplets", "results-with->=2-droplets", "requests-after-a-prelude", "images-in-other-data-forms"]
